@@ -28,6 +28,15 @@ def find(fn):
     return best[1] if best else None
 
 
+def find_key(fn):
+    """The registered prefix that wins for fn (used to run each scenario harness once in the thorough tier)."""
+    best = None
+    for p, r in REALISERS:
+        if fn.startswith(p) and (best is None or len(p) >= len(best)):
+            best = p
+    return best
+
+
 def implies(a, b):
     return (not a) or b
 
